@@ -125,15 +125,60 @@ func genSet(t *rapid.T) (*sem.Case, *setInfo, map[string]bool) {
 // builtinModels: reference models of the field builtins (failing statements built from them)
 var builtinModels = bmodel.Field()
 
+var stdoutFile *os.File
+
+// captured returns what f wrote to standard output.
+func captured(f func()) string {
+	if stdoutFile == nil {
+		stdoutFile, _ = os.CreateTemp("", "c13-stdout")
+		if stdoutFile != nil {
+			os.Remove(stdoutFile.Name()) // stays usable while open; nothing is left behind in the temp directory
+		}
+	}
+	if stdoutFile == nil {
+		f()
+		return ""
+	}
+	st, _ := stdoutFile.Stat()
+	off := st.Size()
+	old := os.Stdout
+	os.Stdout = stdoutFile
+	f()
+	os.Stdout = old
+	st, _ = stdoutFile.Stat()
+	if st.Size() == off {
+		return ""
+	}
+	buf := make([]byte, st.Size()-off)
+	_, _ = stdoutFile.ReadAt(buf, off)
+	return string(buf)
+}
+
 func judge(t rk.Failer, slot string, c *sem.Case, key string, nontrivial bool, labels ...string) {
 	c.Print(nil)
-	v := sem.Decide(c, func() sem.ImplOut { return sem.RunV1(c, 0) }, builtinModels, true, true)
+	var out string
+	first := true
+	v := sem.Decide(c, func() sem.ImplOut {
+		var io sem.ImplOut
+		o := captured(func() { io = sem.RunV1(c, 0) })
+		if first {
+			out, first = o, false
+		}
+		return io
+	}, builtinModels, true, true)
 	if v.Discard != nil {
 		evid.Discard(v.Discard.Error())
 		return
 	}
 	if v.Msg != "" {
 		rk.Fail(t, slot, c.Replay(""), "%s\nscripts:\n%s", v.Msg, dump(c))
+	}
+	// what the scripts printed, in the order of the statements across the script boundaries
+	if !v.Weak && out != v.Model.Stdout {
+		rk.Fail(t, slot, c.Replay(""), "standard output is %q, the statements in their order print %q\nscripts:\n%s", out, v.Model.Stdout, dump(c))
+	}
+	if v.Model.Stdout != "" {
+		labels = append(labels, "prints")
 	}
 	if v.Model.Err != nil {
 		labels = append(labels, fmt.Sprintf("error-chain-len/%d", 1+len(v.Model.Err.Sites)))
@@ -378,6 +423,47 @@ func TestFixedScenarios(t *testing.T) {
 			mk(map[string][]*gen.Node{"main.p": {gen.NSet("seen", gen.NStr("caller's")), gen.NCall("use", gen.NStr("s2.p")), gen.NCall("use", gen.NStr("s3.p")), gen.NCall("use", gen.NStr("s2.p")), reads("caller")},
 				"s2.p": lib2(), "s3.p": append([]*gen.Node{gen.NCall("use", gen.NStr("s1.p")), gen.NCall("use", gen.NStr("s1.p"))}, reads("s3-after")), "s1.p": lib1()}),
 			mk(map[string][]*gen.Node{"main.p": {gen.NFor(gen.NSet("i", gen.NInt(0)), gen.NBin("<", id("i"), gen.NInt(2)), gen.NSet("i", gen.NBin("+", id("i"), gen.NInt(1))), []*gen.Node{gen.NCall("use", gen.NStr("s1.p")), gen.NCall("use", gen.NStr("s2.p"))}), reads("caller")}, "s1.p": lib1(), "s2.p": lib2()}),
+		)
+	}
+	// exit() evaluated inside a statement that goes on to call use(): the callee still runs (the statement is completed),
+	// then the caller ends - it has not forgotten its own exit
+	for form := 0; form < 4; form++ {
+		stmt := func() *gen.Node {
+			switch form {
+			case 0:
+				return gen.NSet("x", gen.NList(gen.NCall("exit"), gen.NCall("use", gen.NStr("s1.p"))))
+			case 1:
+				return gen.NSet("x", gen.NBin("==", gen.NCall("exit"), gen.NCall("use", gen.NStr("s1.p"))))
+			case 2:
+				return gen.NCall("add_key", id("made"), gen.NList(gen.NCall("exit"), gen.NCall("use", gen.NStr("s1.p"))))
+			default:
+				return gen.NCall("probe", gen.NStr("args"), gen.NCall("exit"), gen.NCall("use", gen.NStr("s1.p")))
+			}
+		}
+		cases = append(cases,
+			mk(map[string][]*gen.Node{
+				"main.p": {gen.NSet("v", gen.NInt(1)), stmt(), probeAll("never-after-exit"), gen.NCall("add_key", id("k1"), gen.NInt(77))},
+				"s1.p":   {gen.NCall("probe", gen.NStr("callee-runs"), id("k1")), gen.NCall("add_key", id("from_callee"), gen.NInt(9))},
+			}),
+			mk(map[string][]*gen.Node{
+				"main.p": {gen.NCall("use", gen.NStr("mid.p")), probeAll("top-goes-on")},
+				"mid.p":  {gen.NSet("v", gen.NInt(1)), stmt(), probeAll("never-in-mid")},
+				"s1.p":   {gen.NCall("probe", gen.NStr("callee-runs"), id("k1")), gen.NIf([]*gen.Node{gen.NBool(true)}, [][]*gen.Node{{gen.NCall("exit")}}, nil, false), gen.NCall("probe", gen.NStr("never-in-callee"))},
+			}),
+			mk(map[string][]*gen.Node{
+				"main.p": {gen.NForIn("i", gen.NList(gen.NInt(1), gen.NInt(2)), []*gen.Node{stmt(), probeAll("never-in-loop")}), probeAll("never-after-loop")},
+				"s1.p":   {gen.NCall("probe", gen.NStr("callee-runs"), id("k1"))},
+			}))
+	}
+	// printing on both sides of the script boundary: the output is in the order of the statements
+	{
+		pr := func(s string) *gen.Node { return gen.NCall("printf", gen.NStr(s+" %v\n"), id("k1")) }
+		cases = append(cases,
+			mk(map[string][]*gen.Node{"main.p": {pr("a1"), gen.NCall("use", gen.NStr("s1.p")), pr("a2")}, "s1.p": {pr("b1"), gen.NCall("use", gen.NStr("s2.p")), pr("b2")}, "s2.p": {pr("c1"), gen.NCall("add_key", id("k1"), gen.NInt(5))}}),
+			mk(map[string][]*gen.Node{"main.p": {gen.NForIn("i", gen.NList(gen.NInt(1), gen.NInt(2)), []*gen.Node{pr("loop"), gen.NCall("use", gen.NStr("s1.p"))}), pr("end")}, "s1.p": {pr("callee"), gen.NCall("add_key", id("k1"), gen.NBin("+", id("k1"), gen.NInt(1)))}}),
+			mk(map[string][]*gen.Node{"main.p": {pr("before"), gen.NCall("use", gen.NStr("s1.p")), pr("never")}, "s1.p": {pr("callee"), gen.NCall("perr"), pr("never-callee")}}),
+			mk(map[string][]*gen.Node{"main.p": {pr("before"), gen.NCall("use", gen.NStr("s1.p")), pr("after-callee-exit")}, "s1.p": {pr("callee"), gen.NCall("exit"), pr("never-callee")}}),
+			mk(map[string][]*gen.Node{"main.p": {gen.NCall("use", gen.NStr("s1.p")), pr("only-after")}, "s1.p": {pr("callee-first")}}),
 		)
 	}
 	// caller and callee decode the same document from the shared point: each has a document of its own
